@@ -22,9 +22,12 @@ Pairs == {Pair(k, x) : k \in PairKids, x \in PairKids}
 
 Urls == {Url(c) : c \in [1 .. 7 -> {Null("str"), Str(TA)}]} \cup {Url([q \in 1 .. 7 |-> Str(<<>>)]), Url([q \in 1 .. 7 |-> Str(<<97, 32>>)])}
 
-TokSrcs == {Null("str"), Str(<<>>), Str(TA), Str(<<97, 32, 97>>), Str(<<32, 97, 66>>)}
+TokSrcs == {Null("str"), Str(<<>>), Str(TA), Str(<<97, 32, 97>>), Str(<<32, 97, 66>>), Str(<<66, 97, 66, 66>>)}
 TokSeps == {Null("str"), Str(<<32>>), Str(TA)}
-Toks == {Tok(s, p, e) : s \in TokSrcs, p \in TokSeps, e \in {0, 1}} \ {Tok(Null("str"), p, 1) : p \in TokSeps}   \* eval needs a source
+\* eval needs a source.  X: tokens that would contain a blank (a blank that is not a delimiter) - tok_eval trims its tokens,
+\* which is tok's business (C12), not show's
+Toks == {Tok(s, p, e) : s \in TokSrcs, p \in TokSeps, e \in {0, 1}}
+        \ ({Tok(Null("str"), p, 1) : p \in TokSeps} \cup {Tok(s, Str(TA), 1) : s \in {Str(<<97, 32, 97>>), Str(<<32, 97, 66>>)}})
 
 Sockets == {Socket(l, r) : l \in {Null("url"), Host(TA)}, r \in {Null("url"), Host(<<97, 32>>)}}
 
@@ -45,13 +48,16 @@ TextsQuick == SeqsUpTo({97, 32}, 2)
 TextsThorough == SeqsUpTo({97, 32, 66}, 2)
 
 ValuesQuick == Atoms(TextsQuick) \cup Pairs \cup Urls \cup Toks \cup Sockets \cup Lists1 \cup Lists2(2) \cup ItersOf(IterLists)
-ValuesThorough == Atoms(TextsThorough) \cup Pairs \cup Urls \cup Toks \cup Sockets \cup Lists1 \cup Lists2(3) \cup ItersOf(IterLists)
+\* thorough: depth-2 containers of 3 elements over a smaller element set (the full E2 would give 10^6 cases)
+E2s == {Null("obj"), Str(TA), Pair(Str(TA), Null("obj")), Host(TA)} \cup {List(c, <<Null("obj"), Str(TA)>>) : c \in ListClasses}
+Lists2of3 == {List(c, es) : c \in ListClasses, es \in [1 .. 3 -> E2s]}
+ValuesThorough == Atoms(TextsThorough) \cup Pairs \cup Urls \cup Toks \cup Sockets \cup Lists1 \cup Lists2(2) \cup Lists2of3 \cup ItersOf(IterLists)
 
 NamesQuick == {"", "nm"}
 NamesThorough == {"", "n", "nm"}
 IndentsAll == {0, 1, 2, 7}
 PriorsQuick == {NullBuf, SomeBuf(<<120>>)}
-PriorsThorough == {NullBuf, SomeBuf(<<>>), SomeBuf(<<120>>), SomeBuf(<<120, 10>>), SomeBuf(<<120, 10, 32, 121>>)}
+PriorsThorough == {NullBuf, SomeBuf(<<>>), SomeBuf(<<120>>), SomeBuf(<<120, 10, 32, 121>>)}
 
 \* ---- the memory-safety family: names of length 0, 1, 100, 4000, 4096, 5000 ("<n>" stands for n characters), indents 0..10 and
 \* around the 4096-byte scratch buffers, element texts of 5000 characters, nesting to depth 20
@@ -73,6 +79,5 @@ BigValuesThorough ==
     \cup {Iter(List(c, <<Str(TA), Str(TA)>>), 2) : c \in ListClasses}
     \cup {Nest(c, 5) : c \in ListClasses}
 
-DevValues == Atoms(TextsQuick) \cup Pairs \cup Toks \cup Sockets \cup ItersOf(IterLists)
 ObsEmit(op, args, ret, post) == PrintT(ToJson(ret))
 =============================================================================
